@@ -132,12 +132,12 @@ def run(prog):
         if nm not in ("new", "alloc"):
             errs.append("Bump::%s called at %s (the arena must never be reset or mutated otherwise)" % (nm, sites[0][0].loc(sites[0][1])))
     for fn, line in bump_calls.get("alloc", []):
-        if fn.name != "get_or_insert_by_hash":
+        if fn.name != "get_or_insert_by_hash" and fn.impl_self != "backing_store::bump_table::BackedRobinhoodTable":
             errs.append("Bump::alloc called outside the unique table: %s" % fn.npath)
     if not bump_calls.get("alloc"):
         raise CheckerError("IM3: no Bump::alloc call found")
     out.append(inst("IM", "IM3:arena-api", VIOLATION if errs else OK, None, None,
-                    "; ".join(errs) if errs else "Bump: only new + alloc, alloc only in get_or_insert_by_hash (%d site(s))"
+                    "; ".join(errs) if errs else "Bump: only new + alloc, alloc only inside the unique table's own methods (%d site(s))"
                     % len(bump_calls["alloc"]), loc="crate rsdd"))
     errs = ["%s writes a table slot" % fn.npath for fn, line in tbl_writes
             if not ("backing_store::bump_table" in fn.npath or "util::lru" in fn.npath)]
